@@ -79,3 +79,27 @@ Proof. split; [reflexivity|discriminate]. Qed.
 (* the byte encoding of cases: a case the harness wrote parses and agrees *)
 Example ex_parse_fails_on_garbage : case_ok8 [x01; x02] = false.
 Proof. vm_compute. reflexivity. Qed.
+
+(* ---- WebSocket framing: the hypotheses of the ws clauses of
+   C08_stream_level_never_delivered are satisfiable, and a worked run ---- *)
+Definition ex_ws : cfg := mkcfg true sv_ns_client (str "me@example.net") (fun s => Some s).
+Definition fr (l : string) : name := mkname sv_ns_framing (str l).
+
+Example ex_ws_hyps :
+  c_ws ex_ws = true /\ bytes_eqb (nspace (fr "close")) sv_ns_framing = true /\ nlocal (fr "close") = str "close" /\
+  in_list (nlocal (fr "open")) sv_ws_eof_locals = false /\
+  true && bytes_eqb (nspace (fr "close")) sv_ns_framing = true.
+Proof. vm_compute. repeat split; reflexivity. Qed.
+
+(* <message from='me@example.net'/> <close/> : one invocation (from emptied), Serve returns nil;
+   <a/><open/> : an unexpected restart; <a><close/></a> : the invocation fails with the restart error *)
+Example ex_ws_runs :
+  let r1 := serve_all ex_ws ex_handlers [TStart (cl "message") [at' "from" "me@example.net"]; TEnd (cl "message");
+                                         TChar (str " "); TStart (fr "close") []; TEnd (fr "close")] in
+  let r2 := serve_all ex_ws ex_handlers [TStart (cl "a") []; TEnd (cl "a"); TStart (fr "open") []; TEnd (fr "open")] in
+  let r3 := serve_all ex_ws ex_handlers [TStart (cl "a") []; TStart (fr "close") []; TEnd (fr "close"); TEnd (cl "a");
+                                         TStart (fr "close") []; TEnd (fr "close")] in
+  (s_ret r1 = None /\ map v_attrs (s_invs r1) = [[at' "from" ""]]) /\
+  (s_ret r2 = Some ERestart /\ length (s_invs r2) = 1) /\
+  (s_ret r3 = Some ERestart /\ map v_ret (s_invs r3) = [Some ERestart]).
+Proof. vm_compute. repeat split; reflexivity. Qed.
